@@ -901,13 +901,13 @@ package flags
 //@   loop 2 invariant len(required) == 0 ==> forall(k, 0, cnt_1, noneMissingIn(activeAt(root, k), iterlen(Group.eachGroup, activeAt(root, k).Group))) && noneMissingIn(c, idx_2)
 //@   loop 3 invariant forall(i, 0, len(required), required[i] != nil && missingReq(required[i]))
 //@   loop 3 invariant len(required) == 0 ==> forall(k, 0, cnt_1, noneMissingIn(activeAt(root, k), iterlen(Group.eachGroup, activeAt(root, k).Group))) && noneMissingIn(c, idx_2) && forall(i, 0, idx_3, !missingReq(g.options[i]))
-//@   loop 4 invariant (len(reqnames) > 0) == exists(i, 0, idx_4, unmet(p, p.positional[i]))
+//@   loop 4 invariant[C06,C10] (len(reqnames) > 0) == exists(i, 0, idx_4, unmet(p, p.positional[i]))
 //@   loop 5 invariant len(names) == idx_5
 //@   at[C15] call strings.Join #2: forall(a, 0, len(names), forall(b, a, len(names), names[a] <= names[b]))
 //@   ensures[C06] err != nil ==> isTyped(err, ErrRequired) && p.err == err
 //@   ensures[C06] err == nil ==> p.err == old(p.err)
 //@   ensures[C06] err == nil ==> forall(k, 0, chainLen(root), noneMissingIn(activeAt(root, k), iterlen(Group.eachGroup, activeAt(root, k).Group)))
-//@   ensures[C06] err == nil ==> forall(i, 0, len(p.positional), !unmet(p, p.positional[i]))
+//@   ensures[C06,C10] err == nil ==> forall(i, 0, len(p.positional), !unmet(p, p.positional[i]))
 // (not mechanised: the converse - an ErrRequired result implies that a required option of the
 // active chain or a demanded positional is really missing; the membership invariant needed for it
 // is unstable in the solvers)
@@ -1026,6 +1026,7 @@ package flags
 //@   loop 1 invariant forall(n, string, indom(ret.Sections, n) ==> exists(k, 0, len(ret.order), ret.order[k] == n))
 //@   loop 1 invariant ncalls(bufio.Reader.ReadLine) <= readBound(reader)
 //@   loop 1 decreases readBound(reader) - ncalls(bufio.Reader.ReadLine)
+//@   at[C14] call append #2: name == strings.TrimSpace(line[1 : len(line)-1]) && len(name) != 0
 //@   at[C12] call append #3: value == iniDecode(keyval[1]) && iniDecodeOK(keyval[1]) && name == strings.TrimSpace(keyval[0])
 //@   ensures[C14] err == nil ==> r != nil && !isnil(r.Sections) && r.File == filename
 //@   ensures[C14] is(err, *IniError) ==> as(err, *IniError) != nil && as(err, *IniError).LineNumber == uint((ncalls(readFullLine) - nfails(readFullLine)) - l0) && as(err, *IniError).LineNumber >= 1 && as(err, *IniError).File == filename
@@ -1605,6 +1606,7 @@ package flags
 //@   loop 1 invariant s != nil && s.command != nil && len(s.args) >= 1
 //@   loop 1 decreases len(s.args)
 //@   loop 2 invariant canarg && (idx_2 > 0 ==> o != nil && idx_2 >= utf8w(optname) && !(shortOpt(s, optname, 0) != nil && shortOpt(s, optname, 0).canArgument() && utf8w(optname) < len(optname)))
+//@   at[C18] call Command.fillParseState #2: len(s.positional) == 0
 //@   at[C18] call Option.canArgument #2: !islong ==> canarg == !(len(optname) > 0 && shortOpt(s, optname, 0) != nil && shortOpt(s, optname, 0).canArgument() && utf8w(optname) < len(optname))
 //@   let cv0 := ncalls(completion.completeValue)
 //@   let co0 := ncalls(completion.completeOptionNames)
